@@ -243,7 +243,8 @@ def assemble_net(acts, router, nodes=("A", "B"), topics=("T1",), linked=True):
 MC_BASE = {"Cap": 1, "MaxOps": 5, "MaxDrops": 2, "MaxResetOut": 1, "MaxResetIn": 1, "MaxDisc": 1, "MaxGate": 1, "MaxHold": 1,
            "MaxRemote": 2, "MaxRef": 2, "AllowFanout": False, "FixD12": True, "RetryRechecks": True, "RetryFanoutAware": True,
            "ClosedOrdered": True, "DupClears": True, "MaxDup": 0,
-           "AllowRepeat": True, "CancelIdempotent": True, "RelayCancelIdempotent": True}
+           "AllowRepeat": True, "CancelIdempotent": True, "RelayCancelIdempotent": True,
+           "SubsBeforeAccept": True, "MaxAcc": 0}
 MC_INV = ["TypeOK", "P_C05_WireTruth", "P_C05_ListPeers", "P_C05_NoSpuriousAnnounce", "P_C05_Settles"]
 
 
@@ -260,15 +261,19 @@ def mc_cfg(two_peers, handles=True, **over):
 def model_checking(ctx):
     """Exhaustive MC of Interest / InterestSub; the as-found deviations must fail (non-vacuity)."""
     wire_side = dict(MaxResetIn=0, MaxRemote=0)                      # the wire does not depend on the inbound direction
-    belief_side = dict(MaxOps=1, MaxDrops=0, MaxGate=0, MaxRemote=2, MaxDup=1)  # the belief does not depend on queues and retries
+    belief_side = dict(MaxOps=1, MaxDrops=0, MaxGate=0, MaxRemote=2, MaxDup=1, AllowRepeat=False)
+    # the router's verdict about the sender (graylisted / gater-throttled) against everything that teaches the belief
+    accept_side = dict(MaxOps=0, MaxDrops=0, MaxGate=0, MaxHold=0, MaxResetOut=0, MaxRemote=2, MaxDup=1, MaxAcc=2, AllowRepeat=False)  # the belief does not depend on queues and retries
     jobs = [
         ("mc-wire-1peer", "MCInterest1", mc_cfg(False, AllowRepeat=False, **wire_side), "ok", None, 1200),
         # repeated Cancel / relay-cancel calls, refused Topic.Close, fanout-only: every sequence of 5 API operations against the queue
         ("mc-wire-1peer-repeats", "MCInterest1", mc_cfg(False, AllowFanout=True, MaxGate=0, MaxHold=0, MaxResetOut=0, MaxDisc=0, **wire_side), "ok", None, 900),
         ("mc-belief-2peers", "MCInterest", mc_cfg(True, **belief_side), "ok", None, 900),
+        ("mc-belief-2peers-router-verdict", "MCInterest", mc_cfg(True, **accept_side), "ok", None, 900),
         ("mc-asfound-D12", "MCInterest", mc_cfg(True, handles=False, FixD12=False, **belief_side), "fail", "P_C05_ListPeers", 600),
         ("mc-prefix-D19-late-closedstream", "MCInterest", mc_cfg(True, handles=False, ClosedOrdered=False, **belief_side), "fail", "P_C05_ListPeers", 600),
         ("mc-seeded-replaced-stream-not-cleared", "MCInterest", mc_cfg(True, handles=False, DupClears=False, **belief_side), "fail", "P_C05_ListPeers", 600),
+        ("mc-seeded-accept-before-subscriptions", "MCInterest", mc_cfg(True, handles=False, SubsBeforeAccept=False, **accept_side), "fail", "P_C05_ListPeers", 600),
         ("mc-seeded-retry-no-recheck", "MCInterest1", mc_cfg(False, handles=False, RetryRechecks=False, AllowRepeat=False, **wire_side), "fail", "P_C05_NoSpuriousAnnounce", 600),
         ("mc-prefix-D20-retry-fanout", "MCInterest1", mc_cfg(False, handles=False, AllowFanout=True, AllowRepeat=False, RetryFanoutAware=False, MaxOps=6, MaxDisc=0, MaxResetOut=0,
                                                           MaxGate=0, **wire_side), "fail", "P_C05_NoSpuriousAnnounce", 600),
@@ -280,6 +285,7 @@ def model_checking(ctx):
     if ctx.thorough:
         jobs += [
             ("mc-wire-2peers", "MCInterest", mc_cfg(True, MaxOps=4, MaxHold=0, AllowRepeat=False, **wire_side), "ok", None, 1500),
+            ("mc-belief-2peers-all", "MCInterest", mc_cfg(True, MaxAcc=1, **belief_side), "ok", None, 1500),
             ("mc-wire-1peer-repeats-faults", "MCInterest1", mc_cfg(False, **wire_side), "ok", None, 1500),
             ("mc-wire-1peer-fanout", "MCInterest1", mc_cfg(False, AllowFanout=True, AllowRepeat=False, **wire_side), "ok", None, 1500),
         ]
@@ -296,7 +302,7 @@ def model_checking(ctx):
     for name, module, cfg, want, prop, to in jobs:
         r = res[name]
         if want == "ok":
-            vlib.require_mc_ok(ctx, r, name, allow_timeout=name in ("mc-wire-2peers", "mc-wire-1peer-fanout", "mc-wire-1peer-repeats-faults"))
+            vlib.require_mc_ok(ctx, r, name, allow_timeout=name in ("mc-wire-2peers", "mc-wire-1peer-fanout", "mc-wire-1peer-repeats-faults", "mc-belief-2peers-all"))
             states += r.distinct
             transitions += r.generated
         else:
